@@ -187,6 +187,14 @@ def build():
           [o.PrivateKey().Raw().ToBytes(), bytes(32), b"\xff" * 32, bytes(64), b"\xff" * 64])
         E(cname + ".FromPublicKey", "bytes", (lambda c_: lambda b: c_.FromPublicKey(b))(c),
           [o.PublicKey().RawCompressed().ToBytes(), o.PublicKey().RawUncompressed().ToBytes(), bytes(33), b"\x02" + b"\xff" * 32])
+    # a constructor followed by ONE derivation step: the key material accepted by FromPrivateKey / FromExtendedKey is the
+    # input, the path is fixed (theorem kholaw_child_key_refuted: a Khovratovich-Law parent with kL >= 2^256 - 2^227)
+    kh = Bip32KholawEd25519.FromSeed(SEED)
+    kh_bad = Bip32KholawEd25519.FromPrivateKey(b"\xff" * 64)
+    E("Bip32KholawEd25519.FromPrivateKey.ChildKey", "bytes", lambda b: Bip32KholawEd25519.FromPrivateKey(b).ChildKey(0),
+      [kh.PrivateKey().Raw().ToBytes(), b"\xff" * 64, b"\xff" * 32 + bytes(32), bytes(31) + b"\xf8" + bytes(32)])
+    E("Bip32KholawEd25519.FromExtendedKey.DerivePath", "str", lambda s: Bip32KholawEd25519.FromExtendedKey(s).DerivePath("0"),
+      [kh.PrivateKey().ToExtended(), kh.PublicKey().ToExtended(), kh_bad.PrivateKey().ToExtended()])
     for hc, coin in ((Bip44, Bip44Coins.BITCOIN), (Bip44, Bip44Coins.SOLANA), (Bip49, Bip49Coins.LITECOIN),
                      (Bip84, Bip84Coins.BITCOIN), (Bip86, Bip86Coins.BITCOIN), (Cip1852, Cip1852Coins.CARDANO_ICARUS)):
         o = hc.FromSeed(SEED, coin)
@@ -991,6 +999,17 @@ def build_model_map_c14b(MM):
         MM[cname + ".FromSeedAndPath"] = M(
             (lambda s_, sd_: lambda m, x: ff(m.call("c14b.kh_from_seed_and_path_str", s_, sd_, x)))(scheme, sd), shape="class")
     MM["CardanoByronLegacy.FromSeed"] = M(lambda m, x: ff(m.call("c14b.kh_from_seed", 2, x)), shape="class")
+    # constructor + one derivation step (Bip32KholawEd25519): default key data of FromPrivateKey = zero chain code, depth 0
+    MM["Bip32KholawEd25519.FromPrivateKey.ChildKey"] = M(
+        lambda m, x: ff(m.call("c14b.kh_key_child", 0, 0, x, bytes(32), 0, Z(0))), shape="class", cap=(10, 150))
+
+    def ext_child(m, x):
+        r = m.call("serbip.c05_from_extended", 1, c05.KHOLAW[0], c05.KHOLAW[1], x)
+        if r[0] == "err":
+            return r
+        is_pub, key, kd = r[1]
+        return ff(m.call("c14b.kh_key_child", 0, int(bool(is_pub)), key, kd[2], int(kd[0]), Z(0)))
+    MM["Bip32KholawEd25519.FromExtendedKey.DerivePath"] = M(ext_child, shape="class", cap=(10, 150))
     # AdaByronAddrDecoder.DecryptHdPath(bytes, the wallet's HD path key)
     MM["AdaByronAddrDecoder.DecryptHdPath"] = M(lambda m, x: m.call("c14b.byron_decrypt_path", BYRON_HD_KEY, x), shape="class")
     # Bip44 / Bip49 / Bip84 / Bip86 / Cip1852 constructors: the coin's Bip32 class id and key net versions
@@ -1291,3 +1310,38 @@ def byron_cbor2_exc_replay():
             continue
         bad.append("DecodeAddr(%r) returned" % a)
     return "; ".join(bad) if bad else None
+
+
+# ---- Khovratovich-Law child of an out-of-range parent key
+KH_CHAIN_FNS = ("Bip32KholawEd25519.FromPrivateKey.ChildKey", "Bip32KholawEd25519.FromExtendedKey.DerivePath")
+
+
+def _kh_left_part(fn, x):
+    """kL (little-endian integer of the first 32 key bytes) of the private key the input carries, or None."""
+    try:
+        if fn.endswith("FromPrivateKey.ChildKey"):
+            return int.from_bytes(x[:32], "little") if len(x) == 64 else None
+        raw = Base58Decoder.CheckDecode(x)
+        return int.from_bytes(raw[46:78], "little") if len(raw) == 110 else None
+    except Exception:  # noqa
+        return None
+
+
+def kholaw_child_overflow(fn, args, record):
+    """C14-KHOLAW-OVERFLOW: a private Khovratovich-Law key with kL >= 2^256 - 2^227 is accepted by the constructor; the
+    next private derivation renders 8*zL + kL in 32 bytes -> OverflowError."""
+    f = fn[6:] if fn.startswith("model:") else fn
+    if f not in KH_CHAIN_FNS or not _observed_escape(record) or "OverflowError" not in str(record):
+        return False
+    kl = _kh_left_part(f, args[0])
+    return kl is not None and kl >= 2 ** 256 - 2 ** 227
+
+
+def kholaw_child_overflow_replay():
+    try:
+        Bip32KholawEd25519.FromPrivateKey(b"\xff" * 64).ChildKey(0)
+    except OverflowError as ex:
+        return "Bip32KholawEd25519.FromPrivateKey(ff*64).ChildKey(0) raises OverflowError (%s)" % ex
+    except Exception:  # noqa
+        return None
+    return None
